@@ -94,11 +94,16 @@ class Node(object):
         Returns:
             None
         """
+        node = cls.store.pop(id)
         if children:
-            node = cls.get_node_instance(id)
-            for child in node.children:
-                cls.delete_node_instance(child.id)
-        del Node.store[id]
+            cls._delete_descendants(node)
+
+    @classmethod
+    def _delete_descendants(cls, node: "Node"):
+        # Walk the subtree itself: a descendant may already have left the store
+        for child in node.children:
+            cls.store.pop(child.id, None)
+            cls._delete_descendants(child)
 
     @classmethod
     def fix_nsmap(cls, node: "Node", nsmap: dict = None, nsmap_id: int = None) -> None:
